@@ -99,10 +99,6 @@ func c16AddEntry(c *Ctx, sx *symx.Ctx, fn *ssa.Function) {
 		}
 		others = append(others, st)
 	})
-	for i, st := range others {
-		r.Bad("O-1", fmt.Sprintf("%s#entries-store-other-%d", fk, i+1), c.P.Pos(st.Pos()), "Entries is replaced by a value that is neither append(Entries, entry) nor a reslice of Entries: "+f.Plain(st.Val))
-	}
-	r.Floor("O-1", "append sites in AddEntry", len(appends), 1)
 
 	// the new entry literal: fields come from the parameters
 	entryOK := func(v ssa.Value) (bool, string) {
@@ -136,11 +132,7 @@ func c16AddEntry(c *Ctx, sx *symx.Ctx, fn *ssa.Function) {
 		return true, ""
 	}
 
-	usedTrim := map[*ssa.Store]bool{}
-	for i, ap := range appends {
-		key := fmt.Sprintf("%s#append-%d", fk, i+1)
-		// appended element is the new entry
-		call := ap.Val.(*ssa.Call)
+	recordsArgs := func(call *ssa.Call) (bool, string) {
 		elemOK, why := false, "the appended slice is not a one-element literal"
 		if sl, ok := call.Common().Args[1].(*ssa.Slice); ok {
 			if al, ok := sl.X.(*ssa.Alloc); ok {
@@ -160,6 +152,96 @@ func c16AddEntry(c *Ctx, sx *symx.Ctx, fn *ssa.Function) {
 				}
 			}
 		}
+		return elemOK, why
+	}
+	collapse := func(key string, apBlock *ssa.BasicBlock, apPos token.Pos) {
+		// O-3: collapse
+		var dup *ssa.If
+		for _, iff := range ssau.Ifs(fn) {
+			op, x, y, ok := ssau.CondOf(iff.Cond)
+			if !ok || op != token.EQL {
+				continue
+			}
+			if y != ssa.Value(fn.Params[1]) {
+				x, y = y, x
+			}
+			if y != ssa.Value(fn.Params[1]) {
+				continue
+			}
+			// x = Entries[len(Entries)-1].Query
+			u, ok := x.(*ssa.UnOp)
+			if !ok {
+				continue
+			}
+			fa, ok := u.X.(*ssa.FieldAddr)
+			if !ok || ssau.FieldName(fa) != "Query" {
+				continue
+			}
+			ia, ok := fa.X.(*ssa.IndexAddr)
+			if !ok {
+				continue
+			}
+			el, ok := histFieldLoad(ia.X, "Entries")
+			if !ok {
+				continue
+			}
+			if f.E(ia.Index) != "(len("+f.E(el)+") - 1)" {
+				continue
+			}
+			dup = iff
+			q := interval.New(f)
+			iv := q.At(ia.Index, iff.Block())
+			r.Check(iv.LoOK && iv.Lo >= 0, "O-3", fk+"#last-index-guarded", c.P.Pos(ia.Pos()), "len(Entries)-1 >= 0 by the dominating len(Entries) > 0", "Entries[len(Entries)-1] is read without a dominating len(Entries) > 0: an empty history panics")
+		}
+		if dup == nil {
+			r.Bad("O-3", key+":collapse-test", c.P.Pos(apPos), "no test `Entries[len(Entries)-1].Query == query` guards the append: an immediately repeated query adds a second entry")
+			return
+		}
+		tsucc := dup.Block().Succs[0]
+		reach := blocksReachable(dup.Block(), map[[2]int]bool{{dup.Block().Index, 1}: true})
+		r.Check(!reach[apBlock], "O-3", key+":collapse-test", c.P.Pos(dup.Pos()), "the append is unreachable when the last query equals the new one", "the append is still reachable when the last entry's query equals the new query")
+		// overwrite of the last element on the true side
+		found := false
+		ssau.ForEachInstr(fn, false, func(in ssa.Instruction) {
+			st, ok := in.(*ssa.Store)
+			if !ok || !reach[st.Block()] {
+				return
+			}
+			ia, ok := st.Addr.(*ssa.IndexAddr)
+			if !ok {
+				return
+			}
+			el, ok := histFieldLoad(ia.X, "Entries")
+			if !ok {
+				return
+			}
+			if f.E(ia.Index) != "(len("+f.E(el)+") - 1)" {
+				return
+			}
+			if ok, _ := entryOK(st.Val); ok && (st.Block() == tsucc || pd.PostDominates(st.Block(), tsucc)) {
+				found = true
+			}
+		})
+		r.Check(found, "O-3", key+":collapse-updates-last", c.P.Pos(dup.Pos()), "the repeated query overwrites Entries[len-1] with the new entry", "on the repeated-query branch the last entry is not overwritten with the new entry on every path")
+	}
+	// The list may be worked on in local variables and stored back once:
+	//   list := append(sh.Entries, entry); if len(list)-max > 0 { list = list[len(list)-max:] }; sh.Entries = list
+	// The same obligations are then read off the value that is stored.
+	if len(appends) == 0 && len(trims) == 0 && len(others) > 0 {
+		if c16AddEntryValueForm(c, f, fn, fk, others, recordsArgs, collapse) {
+			return
+		}
+	}
+	for i, st := range others {
+		r.Bad("O-1", fmt.Sprintf("%s#entries-store-other-%d", fk, i+1), c.P.Pos(st.Pos()), "Entries is replaced by a value that is neither append(Entries, entry) nor a reslice of Entries: "+f.Plain(st.Val))
+	}
+	r.Floor("O-1", "append sites in AddEntry", len(appends), 1)
+	usedTrim := map[*ssa.Store]bool{}
+	for i, ap := range appends {
+		key := fmt.Sprintf("%s#append-%d", fk, i+1)
+		// appended element is the new entry
+		call := ap.Val.(*ssa.Call)
+		elemOK, why := recordsArgs(call)
 		r.Check(elemOK, "O-3", key+":records-arguments", c.P.Pos(ap.Pos()), "append(Entries, entry) with entry.Query = query, entry.ResultsCount = resultsCount", why)
 
 		// version created by this store
@@ -276,74 +358,7 @@ func c16AddEntry(c *Ctx, sx *symx.Ctx, fn *ssa.Function) {
 			}
 		}
 
-		// O-3: collapse
-		var dup *ssa.If
-		for _, iff := range ssau.Ifs(fn) {
-			op, x, y, ok := ssau.CondOf(iff.Cond)
-			if !ok || op != token.EQL {
-				continue
-			}
-			if y != ssa.Value(fn.Params[1]) {
-				x, y = y, x
-			}
-			if y != ssa.Value(fn.Params[1]) {
-				continue
-			}
-			// x = Entries[len(Entries)-1].Query
-			u, ok := x.(*ssa.UnOp)
-			if !ok {
-				continue
-			}
-			fa, ok := u.X.(*ssa.FieldAddr)
-			if !ok || ssau.FieldName(fa) != "Query" {
-				continue
-			}
-			ia, ok := fa.X.(*ssa.IndexAddr)
-			if !ok {
-				continue
-			}
-			el, ok := histFieldLoad(ia.X, "Entries")
-			if !ok {
-				continue
-			}
-			if f.E(ia.Index) != "(len("+f.E(el)+") - 1)" {
-				continue
-			}
-			dup = iff
-			q := interval.New(f)
-			iv := q.At(ia.Index, iff.Block())
-			r.Check(iv.LoOK && iv.Lo >= 0, "O-3", fk+"#last-index-guarded", c.P.Pos(ia.Pos()), "len(Entries)-1 >= 0 by the dominating len(Entries) > 0", "Entries[len(Entries)-1] is read without a dominating len(Entries) > 0: an empty history panics")
-		}
-		if dup == nil {
-			r.Bad("O-3", key+":collapse-test", c.P.Pos(ap.Pos()), "no test `Entries[len(Entries)-1].Query == query` guards the append: an immediately repeated query adds a second entry")
-			continue
-		}
-		tsucc := dup.Block().Succs[0]
-		reach := blocksReachable(dup.Block(), map[[2]int]bool{{dup.Block().Index, 1}: true})
-		r.Check(!reach[ap.Block()], "O-3", key+":collapse-test", c.P.Pos(dup.Pos()), "the append is unreachable when the last query equals the new one", "the append is still reachable when the last entry's query equals the new query")
-		// overwrite of the last element on the true side
-		found := false
-		ssau.ForEachInstr(fn, false, func(in ssa.Instruction) {
-			st, ok := in.(*ssa.Store)
-			if !ok || !reach[st.Block()] {
-				return
-			}
-			ia, ok := st.Addr.(*ssa.IndexAddr)
-			if !ok {
-				return
-			}
-			el, ok := histFieldLoad(ia.X, "Entries")
-			if !ok {
-				return
-			}
-			if f.E(ia.Index) != "(len("+f.E(el)+") - 1)" {
-				return
-			}
-			if ok, _ := entryOK(st.Val); ok && (st.Block() == tsucc || pd.PostDominates(st.Block(), tsucc)) {
-				found = true
-			}
-		})
-		r.Check(found, "O-3", key+":collapse-updates-last", c.P.Pos(dup.Pos()), "the repeated query overwrites Entries[len-1] with the new entry", "on the repeated-query branch the last entry is not overwritten with the new entry on every path")
+		collapse(key, ap.Block(), ap.Pos())
 	}
 	for i, t := range trims {
 		if !usedTrim[t] {
@@ -855,4 +870,191 @@ func clean(a linExpr) linExpr {
 		}
 	}
 	return a
+}
+
+// c16AddEntryValueForm decides O-1/O-2/O-3 of AddEntry when the updated list
+// is computed in local variables: every value stored into Entries is the one
+// append(<Entries as loaded>, entry), possibly cut to its suffix
+// list[len(list)-m:] on the side of a test that is true exactly when
+// len(list)-m > 0, with m >= 0 there. Returns false when the stores do not
+// have that shape (the caller then reports them).
+func c16AddEntryValueForm(c *Ctx, f *symx.Fn, fn *ssa.Function, fk string, stores []*ssa.Store, recordsArgs func(*ssa.Call) (bool, string), collapse func(string, *ssa.BasicBlock, token.Pos)) bool {
+	r := c.R
+	var app *ssa.Call
+	type cut struct {
+		sl   *ssa.Slice
+		edge [2]*ssa.BasicBlock // pred -> block of the merge it flows into (nil: stored directly)
+	}
+	var cuts []cut
+	type plain struct{ pred, blk *ssa.BasicBlock }
+	var uncut []plain
+	shapeOK := true
+	seen := map[ssa.Value]bool{}
+	var derive func(v ssa.Value, pred, blk *ssa.BasicBlock)
+	derive = func(v ssa.Value, pred, blk *ssa.BasicBlock) {
+		switch x := v.(type) {
+		case *ssa.Call:
+			if ssau.CallName(x) != "builtin.append" {
+				shapeOK = false
+				return
+			}
+			if _, ok := histFieldLoad(x.Common().Args[0], "Entries"); !ok || (app != nil && app != x) {
+				shapeOK = false
+				return
+			}
+			app = x
+			uncut = append(uncut, plain{pred, blk})
+		case *ssa.Slice:
+			inner, ok := x.X.(*ssa.Call)
+			if !ok || ssau.CallName(inner) != "builtin.append" || (app != nil && app != inner) {
+				shapeOK = false
+				return
+			}
+			if _, ok := histFieldLoad(inner.Common().Args[0], "Entries"); !ok {
+				shapeOK = false
+				return
+			}
+			app = inner
+			cuts = append(cuts, cut{x, [2]*ssa.BasicBlock{pred, blk}})
+		case *ssa.Phi:
+			if seen[x] {
+				return
+			}
+			seen[x] = true
+			for k, e := range x.Edges {
+				derive(e, x.Block().Preds[k], x.Block())
+			}
+		default:
+			shapeOK = false
+		}
+	}
+	for _, st := range stores {
+		derive(st.Val, nil, st.Block())
+	}
+	if !shapeOK || app == nil {
+		return false
+	}
+	key := fk + "#append-1"
+	elemOK, why := recordsArgs(app)
+	r.Check(elemOK, "O-3", key+":records-arguments", c.P.Pos(app.Pos()), "append(Entries, entry) with entry.Query = query, entry.ResultsCount = resultsCount", why)
+	r.Floor("O-1", "append sites in AddEntry", 1, 1)
+
+	// the size test: true exactly when len(list) - m > 0
+	lenOfList := func(v ssa.Value) bool {
+		lc, ok := v.(*ssa.Call)
+		return ok && ssau.CallName(lc) == "builtin.len" && lc.Common().Args[0] == ssa.Value(app)
+	}
+	excess := func(v ssa.Value) (m ssa.Value, ok bool) {
+		d := linOf(f, v, 0)
+		if !d.ok || d.k != 0 || len(d.terms) != 2 {
+			return nil, false
+		}
+		haveLen := false
+		for a, cf := range d.terms {
+			t := d.vals[a]
+			switch {
+			case cf == 1 && lenOfList(t):
+				haveLen = true
+			case cf == -1:
+				m = t
+			default:
+				return nil, false
+			}
+		}
+		return m, haveLen && m != nil
+	}
+	var trimIf *ssa.If
+	var mVal ssa.Value
+	for _, iff := range ssau.Ifs(fn) {
+		op, x, y, ok := ssau.CondOf(iff.Cond)
+		if !ok {
+			continue
+		}
+		if op == token.LSS || op == token.LEQ {
+			x, y, op = y, x, ssau.Flip(op)
+		}
+		if op != token.GTR && op != token.GEQ {
+			continue
+		}
+		d := linSub(linOf(f, x, 0), linOf(f, y, 0))
+		if !d.ok {
+			continue
+		}
+		if op == token.GEQ {
+			d.k++
+		}
+		if d.k != 0 || len(d.terms) != 2 {
+			continue
+		}
+		var m ssa.Value
+		haveLen, good := false, true
+		for a, cf := range d.terms {
+			t := d.vals[a]
+			switch {
+			case cf == 1 && lenOfList(t):
+				haveLen = true
+			case cf == -1:
+				m = t
+			default:
+				good = false
+			}
+		}
+		if good && haveLen && m != nil {
+			trimIf, mVal = iff, m
+		}
+	}
+	if trimIf == nil {
+		r.Bad("O-1", key+":trim-test", c.P.Pos(app.Pos()), "no test `len(list) > max` on the list just appended to: the history can grow beyond its maximum")
+		return true
+	}
+	// the untrimmed list is stored only from the false side of the test, the cut one only from the true side
+	tEdge := map[[2]int]bool{{trimIf.Block().Index, 0}: true}
+	fEdge := map[[2]int]bool{{trimIf.Block().Index, 1}: true}
+	viaOnly := func(pred, blk *ssa.BasicBlock, edge map[[2]int]bool, succIdx int) bool {
+		if pred == nil {
+			return !ssau.ReachableAvoidingEdges(fn, blk, edge)
+		}
+		if pred == trimIf.Block() {
+			return pred.Succs[succIdx] == blk && pred.Succs[1-succIdx] != blk
+		}
+		return !ssau.ReachableAvoidingEdges(fn, pred, edge)
+	}
+	onAll := true
+	for _, u := range uncut {
+		if !viaOnly(u.pred, u.blk, fEdge, 1) {
+			onAll = false
+		}
+	}
+	r.Check(onAll, "O-1", key+":trim-test", c.P.Pos(trimIf.Pos()), "the list is stored uncut only when len(list) > max is false", "some path stores the appended list without having passed the size test: the history can grow beyond its maximum")
+	if len(cuts) == 0 {
+		r.Bad("O-1", key+":trim-keeps-newest", c.P.Pos(trimIf.Pos()), "the true side of the size test does not store a reslice of the list")
+	}
+	for _, ct := range cuts {
+		sl := ct.sl
+		shape := ""
+		switch {
+		case sl.High != nil || sl.Max != nil:
+			shape = "the reslice has an upper bound (" + f.Plain(sl) + "): a prefix keeps the OLDEST entries and drops the newest"
+		case sl.Low == nil:
+			shape = "the reslice has no lower bound: nothing is trimmed"
+		default:
+			m, ok := excess(sl.Low)
+			if !ok || f.E(m) != f.E(mVal) {
+				shape = "the lower bound is " + f.Plain(sl.Low) + ", want len(list)-max on the same values as the test"
+			}
+		}
+		if shape == "" && !viaOnly(ct.edge[0], ct.edge[1], tEdge, 0) && ssau.ReachableAvoidingEdges(fn, sl.Block(), tEdge) {
+			shape = "the cut is made on a path where the size test was not true"
+		}
+		r.Check(shape == "", "O-1", key+":trim-keeps-newest", c.P.Pos(sl.Pos()), "list = list[len(list)-max:] under len(list) > max", shape)
+		// O-2: max >= 0 where it is used as a bound
+		iv := interval.New(f).At(mVal, sl.Block())
+		ok2 := iv.LoOK && iv.Lo >= 0
+		if !ok2 && c16MaxSizeInvariant(c) {
+			ok2 = true
+		}
+		r.Check(ok2, "O-2", fk+"#trim-bound-validated", c.P.Pos(sl.Pos()), fmt.Sprintf("max >= %d established on every path to the reslice", iv.Lo), "no guard or default establishes max >= 0 on every path to the reslice: a negative max_size decoded from the history file makes list[len-max:] panic on every later search")
+	}
+	collapse(key, app.Block(), app.Pos())
+	return true
 }
